@@ -1073,11 +1073,17 @@ func objectsOf(bm *bondmachine.Bondmachine) (ins, outs, inner []string) {
 // mask anything else.
 func genCase(rng *rand.Rand) (cliCase, *bondmachine.Bondmachine, error) {
 	var ns gen.NetSpec
-	switch rng.IntN(4) {
+	switch rng.IntN(5) {
 	case 0:
 		ns = gen.Chain(1+rng.IntN(3), []uint8{8, 16, 32}[rng.IntN(3)], []string{"inc r0"}, rng.IntN(3), rng.IntN(3))
 	case 1:
 		ns = gen.FanOut(1+rng.IntN(2), []uint8{8, 16, 32}[rng.IntN(3)], rng.IntN(2), []int{rng.IntN(3), rng.IntN(3)}, false)
+	case 2:
+		// one processor that takes two values from its input back to back and forwards both
+		// (i2rw r0 i0; i2rw r1 i0; r2owa r0 o0; r2owa r1 o1): values set on consecutive ticks all arrive
+		ns = gen.NetSpec{Rsize: []uint8{8, 16, 32}[rng.IntN(3)], Inputs: 1, Outputs: 2, Family: "pair-reader",
+			Procs: []gen.ProcSpec{{R: 2, NIn: 1, NOut: 2, DoubleIn: true, OutRegs: []int{0, 1}, PadOut: rng.IntN(2)}},
+			Bonds: [][2]string{{"p0i0", "i0"}, {"o0", "p0o0"}, {"o1", "p0o1"}}}
 	default:
 		ns = gen.RandomNet(rng, 3, nil)
 	}
@@ -1117,6 +1123,21 @@ func genCase(rng *rand.Rand) (cliCase, *bondmachine.Bondmachine, error) {
 			p := []int{2, 3, 4, 4, 5, 7, 10}[rng.IntN(7)]
 			periods = append(periods, p)
 			add(fmt.Sprintf("relative:%d:set:%s:%s", p, o, valueLit(rng, ns.Rsize)))
+		}
+	}
+	// a burst: the same input set on consecutive (or every other) ticks
+	if rng.IntN(3) == 0 {
+		o := pick(rng, ins)
+		if !perObj[o] {
+			t0, step := rng.IntN(4), 1+rng.IntN(2)
+			for k := 0; k < 2+rng.IntN(3); k++ {
+				t := t0 + k*step
+				if t >= c.Ticks {
+					break
+				}
+				usedSet[fmt.Sprintf("%d/%s", t, o)] = true
+				add(fmt.Sprintf("absolute:%d:set:%s:%s", t, o, valueLit(rng, ns.Rsize)))
+			}
 		}
 	}
 	nset := 1 + rng.IntN(6)
